@@ -205,8 +205,8 @@ def _select_build_bad(pre, post):
     o, o2 = S_(pre), post.obj('stream')
     out = list(generic_raise(pre, post))
     if o.model != 'adv':
-        out = [('no-alternative-accepting-the-value-is-SelectError-with-nothing-written', t.implies(sel, t.and_(_sb(pre, n), t.eq(o2.pos, o.pos), t.eq(o2.buf, o.buf), t.eq(o2.len, o.len))), T + ('C13',)),
-               ('a-refusing-alternative-leaves-no-trace-only-ExplicitError-or-SelectError-escapes', t.or_(sel, post.eng.exc_sub_term(post.exc.cls, 'ExplicitError')), T + ('C13',))] + out
+        out = [('no-alternative-accepting-the-value-is-SelectError-with-nothing-written', t.implies(sel, t.and_(_sb(pre, n), t.eq(o2.pos, o.pos), t.eq(o2.buf, o.buf), t.eq(o2.len, o.len))), T + ('C13', 'C02')),
+               ('a-refusing-alternative-leaves-no-trace-only-ExplicitError-or-SelectError-escapes', t.or_(sel, post.eng.exc_sub_term(post.exc.cls, 'ExplicitError')), T + ('C13', 'C02'))] + out
     return out
 
 
